@@ -5,6 +5,7 @@ import (
 	"fmt"
 	"os"
 	"sort"
+	"strings"
 	"testing"
 	"time"
 
@@ -64,8 +65,8 @@ func (m *minimiser) tryWithSearch(spec *RunSpec) (*RunSpec, *RunReport, *Outcome
 	if c, r, o := m.try(spec); c != nil {
 		return c, r, o
 	}
-	if len(m.sig) >= 11 && m.sig[:11] == "determinism" {
-		return nil, nil, nil // schedule-independent
+	if strings.HasPrefix(m.sig, "determinism") || strings.HasPrefix(m.sig, "repeat") {
+		return nil, nil, nil // decided in the reference phase: schedule-independent
 	}
 	for i := 0; i < m.research && m.budgetLeft(); i++ {
 		c := cloneSpec(spec)
